@@ -109,6 +109,12 @@ CHECKS = {
         text="The real LFRic generator is run on an algorithm file synthesised for every entry of BUILTIN_MAP under distributed memory on/off x annexed-DoF computation on/off x OpenMP variants, and on multi-built-in invokes over fields of three differently sized function spaces with LFRicLoopFuseTrans applied forwards and backwards. The oracle is read at run time from doc/user_guide/dynamo0p3.rst (signature and array-syntax formula of each built-in); the documented range is all DoFs (no DM), owned DoFs (DM, always for reductions) or owned+annexed (DM with COMPUTE_ANNEXED_DOFS). The generated invoke and the documented statements are executed symbolically over the same symbolic field data, scalars and DoF counts (0 <= owned <= annexed <= undf <= K); z3 decides that every field agrees at every DoF (updated inside the range, untouched outside) and every reduction result agrees. Witnesses are replayed by concrete re-execution and a plain-Python evaluation of the documented formula.",
         note="Bounds: undf <= 3 (quick) / 4 (thorough) per function space (DoF loops unrolled), exact arithmetic. LFRic infrastructure is a stub contract (vlib/fsym/lfric.py): proxies alias fields, one data array per field, get_sum is the identity (one rank), halo calls do not touch data. setval_random and reprod reductions are outside the claim. Trusted: fparser2, z3, fsym, the stub contract, the doc parser.",
         ref="5/C20"),
+    "C23": dict(
+        level="translation_validation", engine="fsym",
+        technique="SMT race query over the symbolically executed LFRic PSy layer: every DO loop is summarised by a Skolem loop variable; for each loop carrying an OpenMP/OpenACC worksharing directive z3 decides whether two distinct iterations can write one element of an incremented field, with dofmaps as uninterpreted functions and the mesh axioms (colour / discontinuity / injectivity) instantiated at the two cells",
+        text="Kernels are synthesised for every access mode x function space of one or two updated arguments (40 metadata variants quick, 264 thorough), the real LFRic generator builds the invoke (distributed memory on and off), and ten transformation sequences (twenty in thorough, with loop fusion of two kernel calls first) of Dynamo0p3ColourTrans, DynamoOMPParallelLoopTrans, Dynamo0p3OMPLoopTrans+OMPParallelTrans, ACCLoopTrans+ACCParallelTrans+ACCEnterDataTrans are applied, targeting the cell loop, the colours loop and regions around either. Whatever is accepted and generated is executed by fsym with the LFRic stub contract; the kernel call's dofmap argument gives the cell term of each iteration. z3 decides, for all meshes satisfying the axioms, that two different iterations of a parallel loop cannot write the same element of an INC/READINC (or discontinuous WRITE/READWRITE) field; separately a colours loop executed inside an open parallel region without worksharing is reported. Witnesses are replayed by an independent structural reading of the emitted text.",
+        note="Unbounded in mesh size (loops summarised, dofmaps uninterpreted). Continuity is taken from the function-space name; GH_WRITE on continuous spaces is outside the property. Sequences are bounded to <= 4 transformations from the listed set. Trusted: fparser2, z3, fsym, the LFRic stub contract, the mesh axioms.",
+        ref="5/C23"),
     "C25": dict(
         level="translation_validation", engine="fsym",
         technique="SMT over loop-nest summaries of the generated GOcean PSy layer: loop variables are Skolem constants bounded by the symbolically evaluated DO bounds; z3 decides 'visited(i,j) <=> configured region' and invariance under transformations for ALL grid sizes and all points (quantified queries)",
